@@ -69,6 +69,10 @@ type MapV struct {
 	entries []*MapEntry
 	idx     map[string]int // concrete key string -> index in entries
 	symKeys bool
+	// arr != nil: a set (map[uintN]struct{}) whose membership is an SMT array
+	// (BV kw -> BV 1); entries/idx are unused.
+	arr *Term
+	kw  int
 }
 
 type Closure struct {
